@@ -57,10 +57,10 @@ async def scenario(loop, plan, r, out):
         steps = []
         out["steps"] = steps
 
-        async def step(name, coro):
+        async def attempt(name, factory):
             t0 = loop.time()
             try:
-                await asyncio.wait_for(coro, 400)
+                await asyncio.wait_for(factory(), 400)
                 steps.append((name, "ok", t0, loop.time(), len(stack.host_writes), len(stack.ncp.requests)))
                 return True
             except asyncio.CancelledError:
@@ -69,25 +69,41 @@ async def scenario(loop, plan, r, out):
                 steps.append((name, type(ex).__name__, t0, loop.time(), len(stack.host_writes), len(stack.ncp.requests), repr(ex)))
                 return False
 
-        if not await step("startup_reset", ezsp.startup_reset()):
+        async def step(name, factory):
+            """Run a bring-up step; when it fails (possible under line faults) the caller of a real
+            application retries on the same connection: do that once and remember whether any
+            fault hit the line during the retry."""
+            if await attempt(name, factory):
+                return True
+            if not plan.get("retry", True):
+                return False
+            await asyncio.sleep(12)  # let retransmissions and late frames drain
+            if name.startswith("startup_reset") or name == "reset":
+                ezsp.stop_ezsp()
+            h0 = len(stack.line.h2n.hits) + len(stack.line.n2h.hits)
+            ok = await attempt(name + ":retry", factory)
+            out.setdefault("retry_faults", {})[name + ":retry"] = len(stack.line.h2n.hits) + len(stack.line.n2h.hits) - h0
+            return ok
+
+        if not await step("startup_reset", lambda: ezsp.startup_reset()):
             return
         out["version_after_startup"] = (ezsp.ezsp_version, type(ezsp._protocol).VERSION)
-        if not await step("write_config", ezsp.write_config({})):
+        if not await step("write_config", lambda: ezsp.write_config({})):
             return
         if plan["second"] == "reset":
-            if not await step("reset", ezsp.reset()):
+            if not await step("reset", lambda: ezsp.reset()):
                 return
             out["version_after_reset"] = (ezsp.ezsp_version, type(ezsp._protocol).VERSION)
-            if not await step("version", ezsp.version()):
+            if not await step("version", lambda: ezsp.version()):
                 return
         else:
             ezsp.stop_ezsp()
             if sp2 := plan.get("spont2"):
                 loop.call_later(0.3 if sp2 == "seen" else 1.3, stack.spontaneous_rstack)
-            if not await step("startup_reset2", ezsp.startup_reset()):
+            if not await step("startup_reset2", lambda: ezsp.startup_reset()):
                 return
         out["version_after_second"] = (ezsp.ezsp_version, type(ezsp._protocol).VERSION)
-        await step("write_config2", ezsp.write_config({}))
+        await step("write_config2", lambda: ezsp.write_config({}))
     finally:
         stack.uninstall()
 
@@ -110,6 +126,12 @@ def check(plan) -> Result:
     vtag = f"V{V}" if V <= 14 else "V>14"
     # --- API outcomes
     for s in steps:
+        if s[0].endswith(":retry"):
+            r.cls("retry-after-failure")
+            if s[1] != "ok" and out.get("retry_faults", {}).get(s[0], 1) == 0 and not late and s[0].split(":")[0].rstrip("2") in ("startup_reset", "reset"):
+                r.bad(f"C09:retry-on-clean-line-fails:{s[0].split(':')[0].rstrip('2')}:{s[1]}",
+                      f"{s[-1]}; steps {[x[:2] for x in steps]}; plan {plan}")
+            continue
         if s[1] != "ok":
             if s[1] not in ALLOWED_EXC:
                 r.bad(f"C09:{s[0].rstrip('2')}-raises:{s[1]}:{vtag}", f"{s[-1]}; plan {plan}")
